@@ -18,6 +18,7 @@ import (
 	"regexp"
 	"regexp/syntax"
 	"sort"
+	"strconv"
 	"strings"
 
 	"github.com/coregx/coregex/literal"
@@ -104,7 +105,8 @@ type litOut struct {
 type litLine struct {
 	Fam  string          `json:"fam"`
 	I    int             `json:"i"`
-	Pat  string          `json:"pat"`
+	Pat  string          `json:"pat"`  // ASCII-quoted, for TLC's messages only (TLC strings are not UTF-8 clean)
+	PatB []int           `json:"patb"` // the bytes of the pattern text: what litconfirm compiles
 	Re   json.RawMessage `json:"re"`
 	Outs []litOut        `json:"outs"`
 }
@@ -204,13 +206,17 @@ func runLitExport(args []string) {
 		if err := json.Unmarshal(r.Re, &ast); err != nil {
 			fatal(err)
 		}
-		line := litLine{Fam: r.Fam, I: r.I, Pat: ast.Pattern(), Re: r.Re}
-		if _, err := regexp.Compile(line.Pat); err != nil {
-			fatal(fmt.Errorf("%s/%d: %q: %v", r.Fam, r.I, line.Pat, err))
+		pat := ast.Pattern()
+		line := litLine{Fam: r.Fam, I: r.I, Pat: strconv.QuoteToASCII(pat), PatB: []int{}, Re: r.Re}
+		for _, c := range []byte(pat) {
+			line.PatB = append(line.PatB, int(c))
+		}
+		if _, err := regexp.Compile(pat); err != nil {
+			fatal(fmt.Errorf("%s/%d: %q: %v", r.Fam, r.I, pat, err))
 		}
 		byOut := map[string]int{}
 		for _, c := range litCfgsFor(r.I, *ncfg) {
-			o := runExtractor(line.Pat, c)
+			o := runExtractor(pat, c)
 			runs++
 			kb, _ := json.Marshal(o)
 			if k, ok := byOut[string(kb)]; ok {
@@ -249,7 +255,8 @@ type litResult struct {
 	Lines  int      `json:"lines"`
 	Fam    string   `json:"fam"`
 	I      int      `json:"i"`
-	Pat    string   `json:"pat"`
+	PatB   []int    `json:"patb"`
+	Pat    string   `json:"-"`
 	L      int      `json:"L"`
 	NMatch int      `json:"nmatch"`
 	NText  int      `json:"ntext"`
@@ -364,7 +371,8 @@ func runLitConfirm(args []string) {
 				}
 				return
 			}
-			if r.Pat != "" || r.I > 0 {
+			if r.I > 0 {
+				r.Pat = string(toBytes(r.PatB))
 				results = append(results, r)
 			}
 		}); err != nil {
@@ -413,10 +421,13 @@ func runLitConfirm(args []string) {
 	rep.Extra["patterns_with_empty_bounded_language"] = vacuous
 	rep.Extra["confirmed_by_kind"] = confirmed
 	rep.Extra["complete_but_context_dependent_info"] = info
+	rep.Extra["undecodable_complete_literal_is_a_match_per_regexp"] = litUndecodableMatch
 	if err := rep.Close(*report); err != nil {
 		fatal(err)
 	}
 }
+
+var litUndecodableMatch int // Complete literals TLC could not decode that regexp accepts as matches (no violation)
 
 // litConfirmOne re-establishes one TLC verdict from observations: regexp for the language side, a fresh run of
 // the real extractor for the implementation side. Returns true when a failure was reported.
@@ -489,6 +500,12 @@ func litConfirmOne(rep *core.Report, r *litResult, b *litBad) bool {
 			return false
 		}
 		if someContext(r.Pat, lit) {
+			if b.Kind == "complete_undecodable" {
+				// TLC did not decide this one (the literal is not a sequence of table symbols, e.g. a rune cut in two);
+				// regexp decides: the bytes are a match (an ill-formed byte is U+FFFD to a wildcard): no violation.
+				litUndecodableMatch++
+				return false
+			}
 			rep.Gap(fmt.Sprintf("C17 %s: spec says %q is not a match by itself, regexp finds a context where it is", r.Pat, lit))
 			return false
 		}
